@@ -198,10 +198,11 @@ package mkvs
 //@   props C03
 //@   requires it != nil
 //@   assume-pre (node\.Key\.(AppendBit|GetBit)|mkvs\.cache\.derefNodePtr)$
-//@   ensures-local err == nil && defined(newPath) && state == visitBefore && it.key == nil && (8 * len(old(key)) <= int(newBitDepth) || (newBitDepth > 0 && 8 * len(old(key)) >= int(newBitDepth) && uf("keyCompare", old(key), newPath) < 0)) ==> GDoNext >= old(GDoNext) + 3
+//@   precall treeIterator\)\.doNext$ :: state == visitBefore && GDoNext == old(GDoNext) && defined(newPath) && ((newBitDepth > 0 && 8 * len(key) >= int(newBitDepth) && uf("keyCompare", key, newPath) < 0) || 8 * len(key) <= int(newBitDepth)) ==> argIs(0, nd.(*node.InternalNode).LeafNode)
+//@   ensures-local err == nil && defined(newPath) && state == visitBefore && it.key == nil && 8 * len(old(key)) <= int(newBitDepth) ==> GDoNext >= old(GDoNext) + 2
 //@   ensures-local err == nil && defined(newPath) && state == visitAt && it.key == nil ==> GDoNext >= old(GDoNext) + 1
 //@   ensures-local err == nil && defined(newPath) && state == visitAtLeft && it.key == nil ==> GDoNext >= old(GDoNext) + 1
-//@   note GDoNext counts the direct recursive descents of one activation. Arriving at an internal node from above with a seek key that is not longer than the node's path, or that is longer but sorts before the path (so that the whole subtree is at or after the seek position), and finding nothing, the step has descended into all three children - the node's own leaf first: the key stored AT an internal node (a key that is a prefix of other keys) is not skipped
+//@   note GDoNext counts the direct recursive descents of one activation. Arriving at an internal node from above with a seek key that is at least as long as the node's path but sorts before it (so that the whole subtree is at or after the seek position), the FIRST descent of the step is into the node's own leaf (also for a seek key not longer than the path): the key stored AT an internal node (a key that is a prefix of other keys) is not skipped. With a seek key not longer than the path at least two children are tried (the leaf and the right subtree; whether the left one is depends on the appended bit, which the contracts of AppendBit/GetBit do not relate)
 
 //@ ghost var GRemoteSyncs int
 
